@@ -92,6 +92,9 @@ def random_case(rng, tier):
         case['pause_in_step'] = sorted({rng.randint(1, len(program['steps']) + 1) for _ in range(rng.randint(1, 2))})
         case['crash_on_paused'] = sorted({rng.randint(1, 2) for _ in range(rng.randint(0, 2))})
         case['crash_on_played'] = sorted({rng.randint(1, 2) for _ in range(rng.randint(0, 1))})
+    if rng.random() < 0.2 and any(step['ret']['t'] == 'wait' for step in program['steps']):
+        # resume(v) arrives right behind a pause request (same loop iteration); whoever paused plays again: f(v) still runs
+        case['pause_at_resume'] = sorted({rng.randint(1, 3) for _ in range(rng.randint(1, 2))})
     return case
 
 
@@ -100,7 +103,7 @@ def shrink(case):
         candidate = copy.deepcopy(case)
         del candidate['lag'][key]
         yield candidate
-    for key in ('pause_in_step', 'crash_on_paused', 'crash_on_played', 'crash_on_exit'):
+    for key in ('pause_in_step', 'crash_on_paused', 'crash_on_played', 'crash_on_exit', 'pause_at_resume'):
         for i in range(len(case.get(key) or [])):
             candidate = copy.deepcopy(case)
             del candidate[key][i]
@@ -134,7 +137,8 @@ def run(case):
     runner = persist.RestartRun(case['program'], case.get('crashes'), case.get('media'), case.get('loader', 'default'),
                                 pause_in_step=case.get('pause_in_step'), crash_on_paused=case.get('crash_on_paused'),
                                 crash_on_played=case.get('crash_on_played'), lag=case.get('lag'),
-                                crash_on_exit=case.get('crash_on_exit'), detached=case.get('detached'))
+                                crash_on_exit=case.get('crash_on_exit'), detached=case.get('detached'),
+                                pause_at_resume=case.get('pause_at_resume'))
     try:
         proc = runner.run()
         if runner.runaway is not None:
@@ -146,6 +150,11 @@ def run(case):
             result.nontrivial = True
             result.violate('resume_failed', type(runner.resume_error).__name__,
                            f'resume() of a process that waits after Wait(f) raised {runner.resume_error!r}')
+        elif runner.resume_lost is not None:
+            result.nontrivial = True
+            result.violate('resume_lost', runner.resume_lost,
+                           f'the process still sits in the same {runner.resume_lost} state after resume(v) (and play): the '
+                           f'continuation of Wait(f) never ran')
         elif runner.load_error is not None:
             result.nontrivial = True
             result.violate('restore_failed', type(runner.load_error).__name__,
